@@ -52,21 +52,70 @@ theorem inputsForDeposit_ok {so : ScriptOf} {a : Account} {newOut : TxOut} {depo
         simp only [Except.ok.injEq] at h
         exact ⟨fee, fdv, outs, hfee, rfl, houts, h.symm⟩
 
-/-- ASSUMPTION on lnd's `FundPsbt` (a parameter of the model, trusted): it returns the template output unchanged,
-optionally with one change output before or after it (`changeIdx` pointing at it, −1 if none), and the inputs it
-selected pay for exactly template + change + its own fee `lndFee ≥ 0`. -/
-def FundOk (fd : Funded) (tplScript : Script) (tplValue : Int) (change : List TxOut) (lndFee : Int) : Prop :=
-  ((fd.changeIdx = -1 ∧ change = [] ∧ fd.outputs = [⟨tplValue, tplScript⟩]) ∨
-   (fd.changeIdx = 0 ∧ ∃ c, change = [c] ∧ fd.outputs = [c, ⟨tplValue, tplScript⟩]) ∨
-   (fd.changeIdx = 1 ∧ ∃ c, change = [c] ∧ fd.outputs = [⟨tplValue, tplScript⟩, c])) ∧
+/-- ASSUMPTION 1 on lnd's `FundPsbt` (a parameter of the model, trusted) – SHAPE: it returns the template output
+unchanged, optionally with one change output before or after it (`changeIdx` pointing at it, −1 if none). -/
+def FundShape (fd : Funded) (tplScript : Script) (tplValue : Int) (change : List TxOut) : Prop :=
+  (fd.changeIdx = -1 ∧ change = [] ∧ fd.outputs = [⟨tplValue, tplScript⟩]) ∨
+  (fd.changeIdx = 0 ∧ ∃ c, change = [c] ∧ fd.outputs = [c, ⟨tplValue, tplScript⟩]) ∨
+  (fd.changeIdx = 1 ∧ ∃ c, change = [c] ∧ fd.outputs = [⟨tplValue, tplScript⟩, c])
+
+/-- ASSUMPTION 2 on lnd's `FundPsbt` – SUM: the inputs it selected pay for exactly template + change + its own fee
+`lndFee ≥ 0`. -/
+def FundSum (fd : Funded) (tplValue : Int) (change : List TxOut) (lndFee : Int) : Prop :=
   (fd.inputs.map (·.utxoValue)).sum = tplValue + sumValues change + lndFee ∧ 0 ≤ lndFee
 
-/-- under `FundOk` the fix-up yields the account output at its new value plus the change, nothing else -/
+/-- both assumptions -/
+def FundOk (fd : Funded) (tplScript : Script) (tplValue : Int) (change : List TxOut) (lndFee : Int) : Prop :=
+  FundShape fd tplScript tplValue change ∧ FundSum fd tplValue change lndFee
+
+/-- UNCONDITIONAL: whatever `FundPsbt` returned, a successful fix-up keeps the number of outputs and every resulting
+output is either the account output at its new value or the output the change index designates, verbatim -/
+theorem fixup_mem {ci : Int} {s : Script} {e nv : Int} {i : Nat} {os outs : List TxOut}
+    (h : fixupOutputs ci s e nv i os = .ok outs) :
+    outs.length = os.length ∧
+    ∀ o' ∈ outs, o' = ⟨nv, s⟩ ∨ ∃ j, ci = ((i + j : Nat) : Int) ∧ os[j]? = some o' := by
+  induction os generalizing i outs with
+  | nil => simp [fixupOutputs] at h; subst h; simp
+  | cons o os ih =>
+    simp only [fixupOutputs] at h
+    split at h
+    · rename_i hc
+      cases hr : fixupOutputs ci s e nv (i + 1) os with
+      | error r => simp [hr, Except.map] at h
+      | ok rest =>
+        simp [hr, Except.map] at h; subst h
+        obtain ⟨hl, hm⟩ := ih hr
+        refine ⟨by simp [hl], ?_⟩
+        intro o' ho'
+        rcases List.mem_cons.mp ho' with rfl | ho'
+        · exact Or.inr ⟨0, by simpa using hc.2, rfl⟩
+        · rcases hm o' ho' with h1 | ⟨j, hj, hg⟩
+          · exact Or.inl h1
+          · exact Or.inr ⟨j + 1, by rw [hj]; congr 1; omega, by simpa using hg⟩
+    · split at h
+      · cases h
+      · split at h
+        · cases h
+        · cases hr : fixupOutputs ci s e nv (i + 1) os with
+          | error r => simp [hr, Except.map] at h
+          | ok rest =>
+            simp [hr, Except.map] at h; subst h
+            obtain ⟨hl, hm⟩ := ih hr
+            refine ⟨by simp [hl], ?_⟩
+            intro o' ho'
+            rcases List.mem_cons.mp ho' with h0 | ho'
+            · rename_i hs _
+              left; rw [h0]; congr 1
+              exact Decidable.not_not.mp hs
+            · rcases hm o' ho' with h1 | ⟨j, hj, hg⟩
+              · exact Or.inl h1
+              · exact Or.inr ⟨j + 1, by rw [hj]; congr 1; omega, by simpa using hg⟩
+
+/-- under `FundShape` the fix-up yields the account output at its new value plus the change, nothing else -/
 theorem fixup_fundOk {fd : Funded} {s : Script} {tplV nv : Int} {change : List TxOut} {lndFee : Int}
-    {outs : List TxOut} (hf : FundOk fd s tplV change lndFee)
+    {outs : List TxOut} (hshape : FundShape fd s tplV change)
     (h : fixupOutputs fd.changeIdx s tplV nv 0 fd.outputs = .ok outs) :
     outs.Perm (⟨nv, s⟩ :: change) := by
-  obtain ⟨hshape, _, _⟩ := hf
   rcases hshape with ⟨hc, hch, ho⟩ | ⟨hc, c, hch, ho⟩ | ⟨hc, c, hch, ho⟩
   · rw [hc, ho] at h; subst hch
     simp [fixupOutputs, Except.map] at h
